@@ -28,7 +28,7 @@ func checkC15(w *World, tier string) *Report {
 	want := map[string]bool{"opTload": true, "opTstore": true, "enable1153": true, "memoryCopierGas": true, "memoryGasCost": true, "toWordSize": true, "calcMemSize64": true, "calcMemSize64WithUint": true,
 		"(*Memory).Resize": true, "(*Memory).Set": true, "(*Memory).Len": true, "(*EVMInterpreter).Run": true, "newShanghaiInstructionSet": true, "validate": true, "NewEVMInterpreter": true}
 	s.cloneRule(r, "R15.1", pkVM, func(name string, pr *PairResult) bool { return want[name] })
-	r.need("R15.1", 15)
+	r.need("R15.1", 12)
 	addR152(w, r, "R15.2")
 	addTableRules(w, r, "R15.2t")
 	addR153(w, r, "R15.3")
